@@ -228,6 +228,7 @@ def instances(tier: str) -> list[dict]:
 
     out += c06re.instances(tier)
     out.append({"part": "tags"})
+    out.append({"part": "tagseq", "L": 5 if tier == "quick" else 6})
     return out
 
 
@@ -249,7 +250,62 @@ TAG_CASES = [
 ]
 
 
+# --- tag slicing over symbolic token sequences ----------------------------------------------------------------
+# A file is a sequence of <= L tokens, each chosen symbolically: the start tag, the end tag (each at most once - with
+# several diagrams in one file the documentation does not say which one counts), two arrow lines, a noise line.
+# Reference: a start tag FOLLOWED by an end tag delimits the diagram - exactly the arrow lines between them are
+# parsed; in every other case (a tag missing, or the end tag only before the start tag) the file has no diagram
+# and must be rejected with PumlParsingError.
+TAG_TOKENS = ["@startuml\n", "@enduml\n", "[a] --> [b]\n", "c -> a\n", "some words, not a diagram line\n"]
+TAG_ARROWS = {2: ("a", "b"), 3: ("c", "a")}
+
+
+def tagseq_outcome(seq):
+    text = "".join(TAG_TOKENS[t] for t in seq)
+    got = parse_text(text, decoy=False)
+    if 0 in seq and 1 in seq and seq.index(0) < seq.index(1):
+        inside = seq[seq.index(0) + 1 : seq.index(1)]
+        rel = {TAG_ARROWS[t] for t in inside if t in TAG_ARROWS}
+        comps = {x for pair in rel for x in pair}
+        if got[0] != "PARSED" or set(got[1]) != comps or set(got[2]) != rel:
+            return ("MISMATCH", f"components {sorted(comps)} relation {sorted(rel)}", str(got)[:200], text)
+        return ("OK", "parsed")
+    if got[0] == "ERROR" and got[1] == "PumlParsingError":
+        return ("OK", "rejected")
+    return ("MISMATCH", "PumlParsingError (no start tag followed by an end tag)", str(got)[:200], text)
+
+
+def tagseq_draw(L, sel):
+    seq = []
+    for n in range(L):
+        c = sel(("t", n), len(TAG_TOKENS) + 1)
+        if c == 0:
+            break
+        seq.append(c - 1)
+    return seq
+
+
+def work_tagseq(inst) -> dict:
+    from vf.engine.symex import AssumeFailed
+
+    L = inst["L"]
+
+    def fn():
+        seq = tagseq_draw(L, lambda k, n: ENGINE.choice(k, n))
+        if seq.count(0) > 1 or seq.count(1) > 1:
+            raise AssumeFailed()
+        return tagseq_outcome(seq)[:3]
+
+    def make_payload(assign):
+        return {"kind": "tagseq", "L": L, "assign": [[list(k), v] for k, v in sorted(assign.items(), key=str)]}
+
+    keys = [(("t", n), len(TAG_TOKENS) + 1) for n in range(L)]
+    return check_no_mismatch(label_of(inst), fn, 1 << 19, make_payload, replay_detail, all_keys=keys, degenerate=True, sample={"tokens": TAG_TOKENS})
+
+
 def work(inst: dict) -> dict:
+    if inst["part"] == "tagseq":
+        return work_tagseq(inst)
     if inst["part"] == "re":
         from vf.props import c06re
 
@@ -289,6 +345,14 @@ def replay_detail(payload: dict):
         got = parse_text(text, real_file=True)
         good = (got[0] == "PARSED") if exp else (got[0] == "ERROR" and got[1] == "PumlParsingError")
         return good, f"diagram text {text!r}: got {got}", {"got": str(got)}
+    if payload["kind"] == "tagseq":
+        assign = {tuple(k): v for k, v in payload["assign"]}
+        seq = tagseq_draw(payload["L"], lambda k, n: assign.get(k, 0))
+        if seq.count(0) > 1 or seq.count(1) > 1:
+            return True, "outside the assumed inputs (a tag more than once)", {}
+        o = tagseq_outcome(seq)
+        ok = o[0] == "OK"
+        return ok, f"diagram file {''.join(TAG_TOKENS[t] for t in seq)!r}: " + (f"{o[1]} as specified" if ok else f"expected {o[1]}, got {o[2]}"), {"outcome": [str(x) for x in o[:3]]}
     if payload["kind"] == "re":
         from vf.props import c06re
 
@@ -315,6 +379,7 @@ def run(tier: str, only: str | None = None) -> int:
 
     rep.bounds = {
         "unify": "2 components: all 49 pairs of declaration forms x 3 name sets; 3 components: seeded sample of form triples; per ordered pair: arrow drawn, each end by alias or by name (symbolic); 6 arrow forms, bracketed / bare references, 4 line orders, noise outside the tags",
+        "tag_slicing": {"tokens": TAG_TOKENS, "sequence_length": "<= 5 (quick) / 6 (thorough), each tag at most once", "concrete_cases": [t for t, _ in TAG_CASES]},
         "name_sets": NAME_SETS,
         "keyword_names": "names <word>book / <word>s.store for every alphabetic word of the parser source's own short string constants: " + ", ".join(parser_keywords()),
         "line_terminators": ["\\n", "\\r\\n"],
